@@ -94,6 +94,31 @@ func (c *c20) runCapacity(r *core.R, p c20Params, rng *rand.Rand) {
 		r.Key("par1|capacity|%d+%d|%s", nf, nv, what)
 		r.SetAdd("exit_statuses_seen", fmt.Sprint(got.exit))
 	}
+	// one volume more than the format has room for: refused, or all of them written
+	{
+		over := runPar(setDir, append([]string{"c", "-c", fmt.Sprint(nv + 1), "over.par"}, names...)...)
+		r.Count("invocations", 1)
+		if over.exit == 0 && over.signal == "" {
+			got := 0
+			for v := 1; v <= nv+1; v++ {
+				if _, err := os.Stat(filepath.Join(setDir, fmt.Sprintf("over.p%02d", v))); err == nil {
+					got++
+				}
+			}
+			if got != nv+1 {
+				r.Violate("exit-0-contradicted-by-disk|create", "create -c %d with %d files exited 0 but %d of the %d requested volumes exist", nv+1, nf, got, nv+1)
+			}
+		} else if over.exit >= 0 && over.exit <= 3 || over.signal != "" || strings.Contains(over.out, "panic: ") {
+			r.Violate(fmt.Sprintf("exit-status|par1|create-beyond-capacity|want=other-failure|got=%d", over.exit), "create -c %d with %d files: exit status %d %s, expected a failure status outside 0..3; output tail: %s", nv+1, nf, over.exit, over.signal, tailStr(over.out, 400))
+		}
+		r.Key("par1|capacity|%d+%d|create-beyond-capacity", nf, nv)
+		ents, _ := os.ReadDir(setDir)
+		for _, de := range ents {
+			if strings.HasPrefix(de.Name(), "over.") {
+				os.Remove(filepath.Join(setDir, de.Name()))
+			}
+		}
+	}
 	check("create-full-set", runPar(setDir, append([]string{"c", "-c", fmt.Sprint(nv), "full.par"}, names...)...), "0")
 	check("verify-full-set", runPar(setDir, "v", "full.par"), "0")
 	lose := func(k int) {
@@ -560,6 +585,22 @@ func (c *c20) Run(cs core.Case) core.Result {
 		expect("create-one-input-below-a-file", runPar(cwd, "c", spell("m3"+ext), spell(w.dataRel[0]), spell(w.dataRel[0]+"/not-a-dir.bin")), "other-failure")
 		if p.Fmt == "par2" {
 			expect("create-invalid-slice-size", runPar(cwd, "c", "-s", "5", spell("s"+ext), spell(w.dataRel[0])), "other-failure")
+		}
+		// inputs that are all empty: nothing to protect, a failure of its own
+		// kind (or a set that verifies)
+		{
+			os.WriteFile(filepath.Join(setDir, "empty-1.bin"), nil, 0644)
+			os.WriteFile(filepath.Join(setDir, "empty-2.bin"), nil, 0644)
+			eIdx := spell("empties" + ext)
+			er := runPar(cwd, "c", "-c", "2", eIdx, spell("empty-1.bin"), spell("empty-2.bin"))
+			if er.exit == 0 && er.signal == "" {
+				expect("create-all-inputs-empty", er, "0")
+				expect("verify-after-create-all-inputs-empty", runPar(cwd, "v", eIdx), "0")
+			} else {
+				expect("create-all-inputs-empty", er, "other-failure")
+			}
+			os.Remove(filepath.Join(setDir, "empty-1.bin"))
+			os.Remove(filepath.Join(setDir, "empty-2.bin"))
 		}
 		// the profile option: a profile that cannot be written is a failure of
 		// its own kind for every command (never 0, and not 1/2/3, which speak
